@@ -1,9 +1,6 @@
 //! Memory-mapped DBC file handling
 
-use crate::{
-    DbcHeader, DbcParser, DbcVersion, Error, Result, Schema, StringBlock,
-    versions::{Wdb2Header, Wdb5Header},
-};
+use crate::{DbcHeader, DbcParser, DbcVersion, Result, Schema, StringBlock};
 use memmap2::{Mmap, MmapOptions};
 use std::fs::File;
 use std::io::{Cursor, Seek, SeekFrom};
@@ -28,26 +25,9 @@ impl MmapDbcFile {
         // Create a cursor to read from the memory-mapped file
         let mut cursor = Cursor::new(&mmap[..]);
 
-        // Detect the DBC version
-        let version = DbcVersion::detect(&mut cursor)?;
-
-        // Parse the header based on the version
-        let header = match version {
-            DbcVersion::WDBC => DbcHeader::parse(&mut cursor)?,
-            DbcVersion::WDB2 => {
-                let wdb2_header = Wdb2Header::parse(&mut cursor)?;
-                wdb2_header.to_dbc_header()
-            }
-            DbcVersion::WDB5 => {
-                let wdb5_header = Wdb5Header::parse(&mut cursor)?;
-                wdb5_header.to_dbc_header()
-            }
-            _ => {
-                return Err(Error::InvalidHeader(format!(
-                    "Unsupported DBC version: {version:?}"
-                )));
-            }
-        };
+        // Detect the version, parse the header and validate it against the file
+        // size exactly like `DbcParser::parse`, so that `parser()` cannot fail later
+        let (version, header, _, _) = crate::parser::parse_layout(&mut cursor)?;
 
         Ok(Self {
             mmap,
